@@ -1459,6 +1459,11 @@ func (f *Frame) enterLoop(li *loopInfo) {
 			break
 		}
 		f.vals[phi] = tr.freshVal(phi.Type(), "lphi/"+phi.Comment)
+		// structural invariant of the compiler-generated range counter: every incoming value is the constant -1 or
+		// the counter plus one, so it never drops below -1 (by induction over the iterations; nothing to discharge)
+		if rangeCounter(phi) {
+			f.assume("(>= " + f.vals[phi].T + " (- 1))")
+		}
 	}
 	// 3. assume invariant
 	if ls != nil {
@@ -2167,4 +2172,34 @@ func (f *Frame) addCover(prop, label, src, sig, goal string) {
 		tr.oblOrder = append(tr.oblOrder, name)
 	}
 	o.Sites = append(o.Sites, &Site{Sig: sig, Goal: goal, Expect: "sat", What: "must be reachable"})
+}
+
+// rangeCounter reports whether phi is the hidden index of a `for range` over a slice, array or string index loop as
+// go/ssa builds it: phi [-1, phi+1].
+func rangeCounter(phi *ssa.Phi) bool {
+	if phi.Comment != "rangeindex" {
+		return false
+	}
+	for _, e := range phi.Edges {
+		switch x := e.(type) {
+		case *ssa.Const:
+			if x.Value == nil || x.Value.Kind() != constant.Int {
+				return false
+			}
+			if v, ok := constant.Int64Val(x.Value); !ok || v != -1 {
+				return false
+			}
+		case *ssa.BinOp:
+			c, isC := x.Y.(*ssa.Const)
+			if x.Op != token.ADD || x.X != ssa.Value(phi) || !isC || c.Value == nil {
+				return false
+			}
+			if v, ok := constant.Int64Val(c.Value); !ok || v != 1 {
+				return false
+			}
+		default:
+			return false
+		}
+	}
+	return true
 }
